@@ -493,6 +493,18 @@ Theorem C04_source_train_stage : forall orc r32 rows,
 Proof. exact src_stage_train_is_model. Qed.
 Print Assumptions C04_source_train_stage.
 
+(* the interaction model's training stage: (lookup, wrapped object) = the fully repaired train_int; equal for both screens *)
+Theorem C04_source_train_stage_interaction : forall orc r32 arity rows,
+  src_stage_train_int orc r32 arity rows
+  = dor s <- train_int orc r32 true true true arity rows; Ok (i_lookup s, legacy_of (i_train s)).
+Proof. exact src_stage_train_int_is_model. Qed.
+Print Assumptions C04_source_train_stage_interaction.
+
+Theorem C04_source_train_stage_interaction_noninterference : forall orc r32 arity s1 s2, same_except_masked s1 s2 ->
+  src_stage_train_int orc r32 arity s1 = src_stage_train_int orc r32 arity s2.
+Proof. exact src_stage_train_int_noninterference. Qed.
+Print Assumptions C04_source_train_stage_interaction_noninterference.
+
 (* posterior samples: the translated mcmc_step (Generated/SrcGibbs.v), its blocks run by ANY runner that is handed the data
    the translated training stored (C08's translated blocks are one), against any recorded draws *)
 Theorem C04_source_thetas_noninterference : forall run orc r32 s0 vals s1 s2, same_except_masked s1 s2 ->
